@@ -29,6 +29,9 @@ type c15Case struct {
 	// Pre: what the browser did before the flow: "" nothing, "loggedin" a completed password login (no logout),
 	// "other" a completed login as another account
 	Pre string `json:"pre,omitempty"`
+	// AtFirst (2FA flows): the parameter is delivered with the password step; the code step is then
+	// sent the way a browser would, to the URL the password step redirected to (query carried along)
+	AtFirst bool `json:"at_first,omitempty"`
 }
 
 var c15Flows = []string{"login", "otplogin", "totp", "sms", "oauth2"}
@@ -85,14 +88,30 @@ func c15Run(c c15Case) *Violation {
 		q.Path, q.Form = w.Path("/otp/login"), map[string]string{"email": "plain@x.io", "password": w.Seeded[0].OTPs[0]}
 		deliver(&q)
 	case "totp":
-		w.Do(harness.Req{Method: "POST", Path: w.Path("/login"), Form: map[string]string{"email": "totp@x.io", "password": "Passw0rd!B"}})
+		lq := harness.Req{Method: "POST", Path: w.Path("/login"), Form: map[string]string{"email": "totp@x.io", "password": "Passw0rd!B"}}
+		if c.AtFirst {
+			deliver(&lq)
+		}
+		lr := w.Do(lq)
 		code, _ := totp.GenerateCode(w.Seeded[1].TOTPSecret, time.Now())
 		q.Path, q.Form = w.Path("/2fa/totp/validate"), map[string]string{"code": code}
-		deliver(&q)
+		if c.AtFirst {
+			q.RawQuery = queryOf(lr.Location)
+		} else {
+			deliver(&q)
+		}
 	case "sms":
-		r := w.Do(harness.Req{Method: "POST", Path: w.Path("/login"), Form: map[string]string{"email": "sms@x.io", "password": "Passw0rd!C"}})
+		lq := harness.Req{Method: "POST", Path: w.Path("/login"), Form: map[string]string{"email": "sms@x.io", "password": "Passw0rd!C"}}
+		if c.AtFirst {
+			deliver(&lq)
+		}
+		r := w.Do(lq)
 		q.Path, q.Form = w.Path("/2fa/sms/validate"), map[string]string{"code": r.SessAfter["sms_secret"]}
-		deliver(&q)
+		if c.AtFirst {
+			q.RawQuery = queryOf(r.Location)
+		} else {
+			deliver(&q)
+		}
 	case "oauth2":
 		// the start request carries the parameter too: its own answer is judged like the final one
 		sw, err := w.DoSocket(harness.Req{Method: "GET", Path: w.Path("/oauth2/goog"), Query: url.Values{"redir": multi()}})
@@ -156,6 +175,13 @@ func c15Run(c c15Case) *Violation {
 	return nil
 }
 
+func queryOf(loc string) string {
+	if i := strings.IndexByte(loc, '?'); i >= 0 {
+		return loc[i+1:]
+	}
+	return ""
+}
+
 func flowGroup(f string) string {
 	if f == "oauth2" {
 		return "oauth2"
@@ -198,6 +224,7 @@ func c15Gen(t *rapid.T) c15Case {
 	c := c15Case{Redir: c15GenRedir(t), Flow: pick(t, "flow", c15Flows...), JSON: chance(t, "json", 40), HTTPS: chance(t, "https", 50), Mount: pick(t, "mount", "/auth", "/auth", "")}
 	c.InBody = !c.JSON && chance(t, "inbody", 40)
 	c.Pre = pick(t, "pre", "", "", "", "loggedin", "other")
+	c.AtFirst = (c.Flow == "totp" || c.Flow == "sms") && chance(t, "atfirst", 40)
 	if chance(t, "repeated", 30) {
 		// the parameter repeated: a benign value beside the hostile one, in either order
 		c.Redir2 = pick(t, "redir2", "/dashboard", "/x", "/a/b?c=1", "//evil.com", "https://evil.com/")
@@ -227,7 +254,7 @@ func TestC15(t *testing.T) {
 		c := c15Gen(rt)
 		hostile, cls := c15Class(c)
 		v := c15Run(c)
-		s.record(hostile, fnv64(c.Flow, modeName(c), cls, c.Redir, c.Pre), []string{"flow:" + c.Flow, "class:" + cls, "pre:" + c.Pre}, func() interface{} { return c })
+		s.record(hostile, fnv64(c.Flow, modeName(c), cls, c.Redir, c.Pre, fmt.Sprint(c.AtFirst)), []string{"flow:" + c.Flow, "class:" + cls, "pre:" + c.Pre, fmt.Sprintf("at-first:%v", c.AtFirst)}, func() interface{} { return c })
 		handle(rt, v, "c15", c)
 	})
 }
